@@ -209,6 +209,10 @@ def lenstr(b: bytes) -> bytes:
     return lenenc(len(b)) + b
 
 
+class BadLenenc(ValueError):
+    pass
+
+
 def rd_lenenc(b: bytes, i: int) -> Tuple[int, int]:
     c = b[i]
     if c < 251:
@@ -219,7 +223,7 @@ def rd_lenenc(b: bytes, i: int) -> Tuple[int, int]:
         return int.from_bytes(b[i + 1 : i + 4], "little"), i + 4
     if c == 0xFE:
         return struct.unpack_from("<Q", b, i + 1)[0], i + 9
-    raise ValueError("bad lenenc 0x%02x" % c)
+    raise BadLenenc("bad lenenc 0x%02x" % c)
 
 
 def rd_lenstr(b: bytes, i: int) -> Tuple[bytes, int]:
@@ -392,7 +396,7 @@ def com_change_user(user: bytes, auth: bytes, db: bytes, charset: Optional[int] 
 
 
 # ----------------------------------------------------------------------------- strict server-side decoding
-class Bad(Exception):
+class Bad(ValueError):
     pass
 
 
@@ -477,7 +481,10 @@ def decode_resultset(pkts: List[bytes], caps: int) -> Dict[str, Any]:
     dep = bool(int(caps) & int(C.CLIENT_DEPRECATE_EOF))
     if not pkts:
         raise Bad("empty response")
-    n, i = rd_lenenc(pkts[0], 0)
+    try:
+        n, i = rd_lenenc(pkts[0], 0)
+    except (ValueError, IndexError, struct.error):
+        raise Bad("column count packet expected, got %r" % pkts[0][:40])
     if i != len(pkts[0]) or n == 0:
         raise Bad("column count packet")
     if len(pkts) < 1 + n:
